@@ -320,7 +320,6 @@ func restartGaps(r *report.Run, rng *report.Rand, idx int) {
 		}
 		defer s.Close()
 		o := &obs{r: r, s: s, label: label, desc: map[string]interface{}{"workload": label}}
-		now := time.Now()
 		n := 0
 		waiting := map[string]bool{} // content keys that must still be in the store
 		submit := func(dest string) {
@@ -330,7 +329,7 @@ func restartGaps(r *report.Run, rng *report.Rand, idx int) {
 			if mode == 1 {
 				bl = bl.CreationTimestampEpoch().BundleAgeBlock(uint64(10))
 			} else {
-				bl = bl.CreationTimestampTime(now)
+				bl = bl.CreationTimestampNow() // frozen within a round: same millisecond
 			}
 			b, err := bl.PayloadBlock(nodesim.Payload(pid, 6)).Build()
 			if err != nil {
@@ -370,6 +369,8 @@ func restartGaps(r *report.Run, rng *report.Rand, idx int) {
 				o.violation("c14.restart-failed", err.Error())
 				return
 			}
+			time.Sleep(1500 * time.Millisecond) // a restart takes time: the next round has another millisecond
+			s.Wait()
 		}
 		// finally the other destinations appear: every waiting bundle leaves under its own ID
 		s.PeerUp("dA")
@@ -401,6 +402,7 @@ func TestCheck(t *testing.T) {
 	bubble.SetT(t)
 	r := report.Start(t, "C14")
 	defer r.Finish()
+	bubble.WatchDeadlocks(3, func(frame, dump string) { r.DeadlockVerdict("c14", frame, dump) })
 
 	// groups of 1..6 x 2 paths x 3 creation-time modes x with/without peer x sequential/concurrent
 	type gc struct {
